@@ -85,11 +85,13 @@ def run(ctx, rep):
         if not (reads and writes and eqs):
             rep.check(bool(eqs), 'W4', f'{name}:equality-test', 'byte equality test', f'{name}: no byte-for-byte equality test between old and new content', site)
             continue
+        # attempts to get at the old content: the whole-file read itself, or the (non-truncating) open of the handle it is read from
+        attempts = reads + [c for c in calls if c['callee'].endswith(('OpenOptions::open', 'File::open')) and not is_write_event(c, oo_names)]
         for wr in writes:
-            dom = any(prog.dominates(b, r['bb'], wr['bb']) for r in reads)
-            # on the path where the read succeeded, the write is only reachable through the equality test
+            dom = any(prog.dominates(b, r['bb'], wr['bb']) for r in attempts)
+            # on the path where the old content was obtained, the write is only reachable through the equality test
             through_eq = any(e.get('via_helper') and prog.dominates(b, e['bb'], wr['bb']) for e in eqs)   # helper: read and test are one call
-            for r in reads:
+            for r in attempts:
                 ok_bbs = read_ok_targets(b, r, prog)
                 avoid = {e['bb'] for e in eqs}
                 if ok_bbs is None:
